@@ -7,6 +7,7 @@ import (
 	"fmt"
 	"math"
 	"math/rand"
+	"sort"
 	"strings"
 
 	"github.com/dgryski/go-wyhash"
@@ -89,7 +90,7 @@ var c10StressPool = []uint64{0, 1, 1, 2, 2, 3, 10, 100, 1000, 1 << 16, 1<<31 - 1
 
 func c10Gen(r *rand.Rand, tier string, i int) any {
 	in := c10Input{Kind: []string{"det", "stress"}[r.Intn(2)]}
-	nid := 1 + r.Intn(4)
+	nid := 1 + r.Intn(3)
 	small := in.Kind == "det" && r.Intn(10) < 4
 	for j := 0; j < nid; j++ {
 		if small && j == 0 {
@@ -98,28 +99,38 @@ func c10Gen(r *rand.Rand, tier string, i int) any {
 			in.IDs = append(in.IDs, c10RandID(r))
 		}
 	}
-	nr := 2 + r.Intn(5)
+	// a descending chain of rates for every ID of the case: most small rates (nesting between any
+	// two of them must hold), a few boundary rates from the pool, and the rates around the largest
+	// rate that still keeps one of the IDs (floor(MAX/h) and neighbours, half and double of it)
+	smallRates := []int64{1, 2, 3, 4, 5, 6, 7, 8, 9, 10, 12, 16}
+	chain := []int64{1, 2, 3}
+	for _, j := range r.Perm(len(smallRates))[:5] {
+		chain = append(chain, smallRates[j])
+	}
 	if in.Kind == "det" {
-		for j := 0; j < nr; j++ {
-			if r.Intn(4) == 0 {
+		in.DetRates = append(in.DetRates, chain...)
+		for j := 0; j < 3; j++ {
+			if r.Intn(3) == 0 {
 				in.DetRates = append(in.DetRates, 1+r.Int63n(1<<uint(1+r.Intn(32))))
 			} else {
 				in.DetRates = append(in.DetRates, c10DetPool[r.Intn(len(c10DetPool))])
 			}
 		}
-		// rates around the largest rate that still keeps one of the IDs: floor(MAX/h) and neighbours
 		h := int64(c10DetHash(in.IDs[r.Intn(len(in.IDs))]))
 		if h > 0 {
 			rs := int64(math.MaxUint32) / h
-			for _, d := range []int64{-1, 0, 1} {
-				if rs+d >= 1 && r.Intn(4) > 0 {
-					in.DetRates = append(in.DetRates, rs+d)
+			for _, v := range []int64{rs - 1, rs, rs + 1, rs / 2, 2 * rs} {
+				if v >= 1 && r.Intn(4) > 0 {
+					in.DetRates = append(in.DetRates, v)
 				}
 			}
 		}
 	} else {
-		for j := 0; j < nr; j++ {
-			if r.Intn(4) == 0 {
+		for _, c := range chain {
+			in.StressRates = append(in.StressRates, uint64(c))
+		}
+		for j := 0; j < 3; j++ {
+			if r.Intn(3) == 0 {
 				in.StressRates = append(in.StressRates, 1+r.Uint64()>>uint(r.Intn(64)))
 			} else {
 				in.StressRates = append(in.StressRates, c10StressPool[r.Intn(len(c10StressPool))])
@@ -128,8 +139,7 @@ func c10Gen(r *rand.Rand, tier string, i int) any {
 		h := c10StressHash(in.IDs[r.Intn(len(in.IDs))])
 		if h > 0 {
 			rs := uint64(math.MaxUint64) / h
-			for _, d := range []int64{-1, 0, 1} {
-				v := rs + uint64(d)
+			for _, v := range []uint64{rs - 1, rs, rs + 1, rs / 2, 2 * rs} {
 				if v >= 1 && r.Intn(4) > 0 {
 					in.StressRates = append(in.StressRates, v)
 				}
@@ -249,6 +259,38 @@ func c10Run(raw json.RawMessage) (Case, error) {
 			rates = append(rates, c10Zu(in.StressRates[j]))
 		}
 	}
+	// One StressRelief object reloaded through all the rates of the case in descending order and
+	// back up again (UpdateFromConfig on the same object), every ID evaluated at every stop:
+	// shared[id][rate index] collects these extra evaluations of (id, rate).
+	shared := map[string][]c10Obs{}
+	if !det && n > 0 {
+		order := make([]int, n)
+		for j := range order {
+			order[j] = j
+		}
+		sort.SliceStable(order, func(a, b int) bool { return in.StressRates[order[a]] > in.StressRates[order[b]] })
+		for k := n - 2; k >= 0; k-- { // … and ascending again
+			order = append(order, order[k])
+		}
+		for _, id := range in.IDs {
+			shared[id] = make([]c10Obs, n)
+		}
+		func() {
+			defer func() { recover() }()
+			sr := c10NewStress(in.StressRates[order[0]])
+			for _, j := range order {
+				sr.Config.(*config.MockConfig).StressRelief.SamplingRate = in.StressRates[j]
+				sr.UpdateFromConfig()
+				for _, id := range in.IDs {
+					rt, keep, _ := sr.GetSampleRate(id)
+					o := shared[id][j]
+					o.rates = append(o.rates, uint64(rt))
+					o.keeps = append(o.keeps, keep)
+					shared[id][j] = o
+				}
+			}
+		}()
+	}
 	var rows []string
 	var human []string
 	tags := []string{"kind:" + in.Kind}
@@ -274,11 +316,10 @@ func c10Run(raw json.RawMessage) (Case, error) {
 			} else {
 				o = c10RunStress(in.StressRates[j], id)
 				inRange = in.StressRates[j] > 1
-			}
-			var rs, ks []string
-			for k := range o.keeps {
-				rs = append(rs, c10Zu(o.rates[k]))
-				ks = append(ks, cq.Bool(o.keeps[k]))
+				if !o.crash {
+					o.rates = append(o.rates, shared[id][j].rates...)
+					o.keeps = append(o.keeps, shared[id][j].keeps...)
+				}
 			}
 			if inRange && !o.crash && len(o.keeps) > 0 {
 				if o.keeps[0] {
@@ -290,13 +331,27 @@ func c10Run(raw json.RawMessage) (Case, error) {
 			if o.crash {
 				tags = append(tags, "crash")
 			}
-			obs = append(obs, fmt.Sprintf("{| o_crash := %s; o_rates := %s; o_keeps := %s |}", cq.Bool(o.crash), cq.List(rs), cq.List(ks)))
-			human = append(human, fmt.Sprintf("id=%q h=%d rate=%s crash=%v keeps=%v rates=%v", id, h, strings.TrimSuffix(rates[j], "%Z"), o.crash, o.keeps, o.rates))
+			// every distinct value observed, the first observation first
+			var rs, ks []string
+			seenR := map[uint64]bool{}
+			seenK := map[bool]bool{}
+			for k := range o.keeps {
+				if !seenR[o.rates[k]] {
+					seenR[o.rates[k]] = true
+					rs = append(rs, c10Zu(o.rates[k]))
+				}
+				if !seenK[o.keeps[k]] {
+					seenK[o.keeps[k]] = true
+					ks = append(ks, cq.Bool(o.keeps[k]))
+				}
+			}
+			obs = append(obs, fmt.Sprintf("(Build_obs %s %s %s)", cq.Bool(o.crash), cq.List(rs), cq.List(ks)))
+			human = append(human, fmt.Sprintf("id=%q h=%d rate=%s crash=%v evaluations=%d keeps=%v rates=%v", id, h, strings.TrimSuffix(rates[j], "%Z"), o.crash, len(o.keeps), ks, rs))
 		}
 		if kept && dropped {
 			straddle = true
 		}
-		rows = append(rows, fmt.Sprintf("{| r_h := %s; r_obs := %s |}", c10Zu(h), cq.List(obs)))
+		rows = append(rows, fmt.Sprintf("(Build_row %s %s)", c10Zu(h), cq.List(obs)))
 	}
 	stat := "None"
 	if in.Stat != nil {
@@ -327,7 +382,7 @@ func c10Run(raw json.RawMessage) (Case, error) {
 	if straddle {
 		tags = append(tags, "straddles-threshold")
 	}
-	coq := fmt.Sprintf("{| c_kind := %s; c_salt := %s; c_seed := %s; c_rates := %s; c_rows := %s; c_stat := %s |}",
+	coq := fmt.Sprintf("(Build_case %s %s %s %s %s %s)",
 		map[bool]string{true: "KDet", false: "KStress"}[det], cq.Str(c10Salt), cq.N(c10Seed), cq.List(rates), cq.List(rows), stat)
 	return Case{Coq: coq, Key: in.Kind + "|" + strings.Join(in.IDs, ",") + "|" + strings.Join(rates, ","),
 		Nontriv: straddle, Tags: sampDedupTags(tags), Summary: map[string]any{"kind": in.Kind, "observations": human}}, nil
